@@ -154,7 +154,8 @@ func runC05(r resIface, c *c05case, rng *prng.R, scratch string) {
 		r.Inconcl("fakesource: " + err.Error())
 		return
 	}
-	defer src.Close()
+	// the source is deliberately left open: the tool's reconnect loop of this case lives on after the case, and
+	// a freed port could be handed to a later case's source, which would then see a stranger's PSYNC
 	if c.Drop {
 		src.DropAfter(int64(c.Stream / 2)) // the link dies after half of the stream; the rest must arrive over the resumed link
 	}
